@@ -61,9 +61,12 @@ def split_failures(rep):
     tool = [f for f in rep["failures"] if f["key"].startswith("HARNESS") or f["key"].startswith("MODEL")]
     if tool:
         raise ToolError("harness/model mismatch (not a verdict about the code): %s" % json.dumps(tool[0])[:1500])
-    by = {"C14": [], "C15": [], "C19": []}
+    by = {"C14": [], "C15": [], "C19": [], "DRIFT": []}
     for f in rep["failures"]:
         k = f["key"]
+        if k.startswith("DRIFT"):
+            by["DRIFT"].append(f)
+            continue
         budget = f["detail"].get("case", [{}])[0].get("op", [None, 99])[1]
         if "not wiped" in k or "never released" in k or "release event" in k or "number of releases" in k:
             by["C15"].append(f)
